@@ -2,7 +2,7 @@
    Lane convention (Model/C10AvxLanes.v): a 64-bit lane is its signed value; `wadd 64`, `wsub 64`, `shl 64`, `asr`
    are the wrapping i64 operations of the scalar reference kernels (Model/Znx.v). *)
 From PV Require Import Base.MachineInt Model.Znx Model.C10AvxLanes
-  Proofs.C10Avx Proofs.C10Kernels Proofs.C10Simd.
+  Proofs.C10Avx Proofs.C10Kernels Proofs.C10Simd Model.C07Ntt120 Proofs.C10Ntt.
 Open Scope Z_scope.
 
 Theorem C10_land_mask_mod : forall b x : Z, 0 <= b -> Z.land x (2 ^ b - 1) = x mod 2 ^ b.
@@ -141,6 +141,29 @@ Theorem C10_avx_vec_middle_step : forall (ov : bool) (b lsh : Z) (l : list (Z * 
 Proof. exact avx_vec_middle_step. Qed.
 Print Assumptions C10_avx_vec_middle_step.
 
+(* ---- NTT120 (Primes30): Barrett step with mu = floor(2^61/Q), c_from_b_avx2 and b_from_znx64_avx2 lane bodies ---- *)
+Theorem C10_barrett_reduce_eq : forall q tmp : Z, 2 ^ 29 < q < 2 ^ 30 -> 0 <= tmp < 2 ^ 61 ->
+  barrett_reduce_avx tmp q (2 ^ 61 / q) = tmp mod q.
+Proof. exact barrett_reduce_eq. Qed.
+Print Assumptions C10_barrett_reduce_eq.
+
+Theorem C10_c_from_b_avx_eq_ref : forall q x : Z, 2 ^ 29 < q < 2 ^ 30 ->
+  (2 ^ 32 - q) * (2 ^ 32 mod q) + 2 ^ 32 <= 2 ^ 61 -> 0 <= x < 2 ^ 64 ->
+  c_from_b_k_avx q x = c_from_b_k q x.
+Proof. exact c_from_b_avx_eq_ref. Qed.
+Print Assumptions C10_c_from_b_avx_eq_ref.
+
+(* the four primes of Primes30 (translated from /repo: Gen/C07Consts_gen.v), every u64 input *)
+Theorem C10_c_from_b_avx_eq_ref_primes30 : forall q x : Z, In q primes30_Q -> 0 <= x < 2 ^ 64 ->
+  c_from_b_k_avx q x = c_from_b_k q x.
+Proof. exact c_from_b_avx_eq_ref_primes30. Qed.
+Print Assumptions C10_c_from_b_avx_eq_ref_primes30.
+
+Theorem C10_b_from_znx64_avx_eq_ref : forall q x : Z, 1 <= q < 2 ^ 62 -> in_range 64 x ->
+  b_from_znx64_k_avx q x = b_from_znx64_k q x.
+Proof. exact b_from_znx64_avx_eq_ref. Qed.
+Print Assumptions C10_b_from_znx64_avx_eq_ref.
+
 (* ---- boundary lanes: i64::MIN, i64::MAX, -1, 2^62 ---- *)
 Definition bnd : list Z := [- 2 ^ 63; 2 ^ 63 - 1; -1; 2 ^ 62].
 Example C10_ex_bnd_in_range : forallb (in_rangeb 64) bnd = true.
@@ -166,3 +189,8 @@ Example C10_ex_simd_tail : forall f : Z -> Z,
   simd_map f f [1; 2; 3; 4; 5] = [f 1; f 2; f 3; f 4; f 5] /\ simd_map f f [1; 2; 3] = [f 1; f 2; f 3] /\
   simd_map f f [1] = [f 1] /\ simd_map f f [] = [].
 Proof. intros f. repeat split. Qed.
+Example C10_ex_c_from_b : map (fun x => c_from_b_k_avx 1073479681 x) [0; 2 ^ 64 - 1; 2 ^ 63; 1073479681 * 2 ^ 33]
+                        = map (fun x => c_from_b_k 1073479681 x) [0; 2 ^ 64 - 1; 2 ^ 63; 1073479681 * 2 ^ 33].
+Proof. vm_compute. reflexivity. Qed.
+Example C10_ex_b_from_znx64 : map (b_from_znx64_k_avx 1068236801) bnd = map (b_from_znx64_k 1068236801) bnd.
+Proof. vm_compute. reflexivity. Qed.
